@@ -10,7 +10,7 @@ from __future__ import annotations
 
 import ast
 
-from ..cfg import CFG
+from ..cfg import CFG, facts_at
 from ..core import AnalysisError, FuncNode, arg_or_kw, call_name, calls_in, kwarg, last_attr, names_in, src
 from ..effects import commit_summary, expr_commits
 
@@ -211,6 +211,39 @@ def run(ctx):
     ends = [cfg.node_of(c) for c in calls_in(rs, shallow=True) if call_name(c) == f"{jv}.resolve"]
     ok = bool(ends) and all(cfg.must_pass(e, maint, targets=ends) for e in cfg.edge_nodes(tnode, "T"))
     r4.check(ok, f"{m.rel}:Scheduler._resolve_job_main_thread:cached-arm", "a cached job can be resolved without its subtree task set being maintained (parents above a shallow hit would record an incomplete set)", m.rel, arm.lineno)
+    # a hit whose *final* result is used (no child job is evaluated under the job) must take its subtree set from the backend record:
+    # that is the case for ULTIMATE reduction and for CSE hits, whatever the job's check_valid option says.  The children-based
+    # calc_subtree_tasks() on the cached arm is only right for single reduction.
+    gc = m.func("Scheduler._get_cache")
+    gcfg = CFG(gc)
+    gj = gc.args.args[1].arg
+    final_rets = []
+    for n in gcfg.nodes:
+        if n.kind == "stmt" and isinstance(n.ast, ast.Return) and isinstance(n.ast.value, ast.Tuple) and len(n.ast.value.elts) == 3 and src(n.ast.value.elts[1]) == "True":
+            fs = facts_at(gcfg, n)
+            if any(t and "CacheResult.CSE" in f and "==" in f for f, t in fs):
+                final_rets.append(n)
+    if not final_rets:
+        raise AnalysisError("_get_cache: the CSE arm returning (result, True, call_hash) was not found", "Scheduler._get_cache")
+    markers = set()
+    for rn in final_rets:
+        for n in gcfg.nodes:
+            if n.kind == "stmt" and isinstance(n.ast, ast.Assign) and isinstance(n.ast.targets[0], ast.Attribute) and src(n.ast.targets[0].value) == gj and src(n.ast.value) == "True" and gcfg.dominates(n, rn):
+                if any(t and "CacheResult.CSE" in f for f, t in facts_at(gcfg, n)):
+                    markers.add(n.ast.targets[0].attr)
+    calc_nodes = [n for n in cfg.nodes if n.kind == "stmt" and n.ast is not None and f"{jv}.calc_subtree_tasks()" in src(n.ast) and any(cfg.dominates(e, n) for e in cfg.edge_nodes(tnode, "T"))]
+    for cn in calc_nodes:
+        fs = facts_at(cfg, cn)
+        excluded = any((f"{jv}.{mk}", False) in fs for mk in markers)
+        r4.check(
+            excluded,
+            f"{m.rel}:Scheduler._resolve_job_main_thread:cached-arm:cse",
+            f"on the cached arm `{src(cn.ast)}` (children-based subtree set) is chosen from the check_valid option alone; a CSE hit of a fully-checked call uses the final result, has no "
+            f"child jobs, and ends with the set {{own task}} (markers set by _get_cache on its CSE return: {sorted(markers) or 'none'}): a shallow-checked ancestor then records an incomplete set "
+            "and replays a stale result after a task below the CSE hit changes",
+            m.rel,
+            cn.lineno,
+        )
     gs = m.func("Scheduler._get_subtree_tasks")
     ok = any(call_name(c) == "self.backend.get_subtree_tasks" and c.args and src(c.args[0]).endswith(".call_hash") for c in calls_in(gs))
     r4.check(ok, f"{m.rel}:Scheduler._get_subtree_tasks", "_get_subtree_tasks does not query the backend for the hit's call_hash", m.rel, gs.lineno)
